@@ -183,8 +183,12 @@ type Result struct {
 	Incomplete []string              `json:"incomplete"` // sub-spaces not completed (deadline)
 	Notes      []string              `json:"notes"`
 	Matched    map[string]int64      `json:"matched"` // known finding id -> number of violation instances it covered
+	// SetKeys carries the members of the small distinct sets from a shard to the parent, so that the parent can take
+	// the union (sets larger than setKeysCap are only summed, which over-counts members seen by several shards).
+	SetKeys map[string][]uint64 `json:"set_keys,omitempty"`
 
 	sets     map[string]map[uint64]struct{}
+	summed   map[string]bool
 	findings []Finding
 }
 
@@ -200,6 +204,21 @@ func (r *Result) Add(name string, n int64) {
 }
 
 const distinctCap = 1 << 21
+const setKeysCap = 1 << 14
+
+// exportSets fills SetKeys before a shard's result is marshalled.
+func (r *Result) exportSets() {
+	r.SetKeys = map[string][]uint64{}
+	for name, m := range r.sets {
+		if len(m) <= setKeysCap {
+			ks := make([]uint64, 0, len(m))
+			for k := range m {
+				ks = append(ks, k)
+			}
+			r.SetKeys[name] = ks
+		}
+	}
+}
 
 // Seen records key in the named distinct set (capped: once the cap is hit the count stays there, i.e. is a lower bound).
 func (r *Result) Seen(set string, key []byte) {
@@ -287,6 +306,28 @@ func (r *Result) merge(o *Result) {
 		r.Counters[k] += v
 	}
 	for k, v := range o.Distinct {
+		if keys, ok := o.SetKeys[k]; ok {
+			if _, summed := r.summed[k]; !summed {
+				m := r.sets[k]
+				if m == nil {
+					m = map[uint64]struct{}{}
+					r.sets[k] = m
+				}
+				for _, x := range keys {
+					m[x] = struct{}{}
+				}
+				r.Distinct[k] = int64(len(m))
+				continue
+			}
+		}
+		if r.summed == nil {
+			r.summed = map[string]bool{}
+		}
+		if m := r.sets[k]; m != nil && !r.summed[k] {
+			// a set that was a union so far and now meets a shard that could not export its members
+			r.Distinct[k] = int64(len(m))
+		}
+		r.summed[k] = true
 		r.Distinct[k] += v
 	}
 	for k, v := range o.Outcomes {
@@ -398,6 +439,7 @@ func Main(s Spec) {
 			}()
 			s.Run(tier, i, n, res)
 		}()
+		res.exportSets()
 		b, _ := json.Marshal(res)
 		os.Stdout.Write(b)
 		return
